@@ -2,8 +2,8 @@ SPECIFICATION Spec
 CONSTANTS
   Users = {"u", "v"}
   Scopes = {"a"}
-  Perms = {1, 2, 3, 5, 79}
-  Required = {2, 3, 4, 5, 79}
+  Perms = {1, 2, 3, 79}
+  Required = {2, 3, 4, 79}
   Super = "super"
   Nobody = "nobody"
   Other = "other"
